@@ -134,19 +134,33 @@ func runC07(p *l2Profile) func(r *core.Run) *core.Violation {
 			}
 			calls := ref.lastCalls[0]
 			refGas := ref.lastRes.TxResults[0].GasUsed
-			// handler-only gas: the same deposit without payload
-			if len(msg.Data) > 0 {
+			// hook gas: compare with the same deposit carrying a payload that costs (almost) no hook gas and takes the
+			// same path afterwards -- no payload when the deposit was credited, an undecodable one-byte payload
+			// when it was refunded (same reclaim / burn / refund bookkeeping)
+			if len(msg.Data) > 0 && w.m.Params.HookMaxGas > 0 {
 				nh := *msg
 				nh.Data = nil
-				g0 := w.fork()
-				if v := g0.singleTxBlock(&nh, "", "relay", desc+" (no payload, gas baseline)"); v != nil {
-					return v
+				evs := node.EventAttrs(ref.lastRes.TxResults[0].Events, "finalize_token_deposit")
+				refunded := len(evs) == 1 && evs[0]["success"] != "true"
+				a, okA := validAddr(msg.To)
+				hookRan := okA && !(w.m.Blocked[string(a)] && msg.Amount.IsPositive())
+				if refunded && hookRan {
+					nh.Data = []byte{0xff}
 				}
-				base := g0.lastRes.TxResults[0].GasUsed
-				if refGas > base+int64(w.m.Params.HookMaxGas)+150_000 { // slack: the reclaim-and-burn + refund bookkeeping of a failed hook is charged outside the allowance
-					return w.fail(mismatch{"hook.gas-unbounded", "hook-gas-over-allowance", []string{"C07"}, fmt.Sprintf("deposit with payload used %d gas, without payload %d, hook allowance %d", refGas, base, w.m.Params.HookMaxGas)})
+				if !refunded || hookRan {
+					g0 := w.fork()
+					if v := g0.singleTxBlock(&nh, "", "relay", desc+" (gas baseline)"); v != nil {
+						return v
+					}
+					base := g0.lastRes.TxResults[0].GasUsed
+					if refGas > base+int64(w.m.Params.HookMaxGas)+2_000 {
+						return w.fail(mismatch{"hook.gas-unbounded", "hook-gas-over-allowance", []string{"C07"}, fmt.Sprintf("deposit with payload used %d gas, the same deposit with a free payload %d, hook allowance %d", refGas, base, w.m.Params.HookMaxGas)})
+					}
+					r.Probe("c07.gas-bound-checked")
+					if refunded {
+						r.Probe("c07.gas-bound-checked-on-refund")
+					}
 				}
-				r.Probe("c07.gas-bound-checked")
 			}
 			// per-site call indices
 			siteIdx := map[string]int{}
